@@ -70,7 +70,7 @@ def main(tier: str, seed: int, opts) -> int:
     need = {}
     for h in histories:
         for op in h["ops"]:
-            if op["op"] != "interrupt":
+            if op["op"] not in ampworld.FAULT_OPS:
                 need.setdefault((ampworld.op_key(op), h["hashseed"]), op)
     # every distinct call is also evaluated under every hash seed (oracle 2)
     for (k, _), op in list(need.items()):
@@ -115,8 +115,8 @@ def main(tier: str, seed: int, opts) -> int:
                 outcome_kinds[o["kind"]] = outcome_kinds.get(o["kind"], 0) + 1
                 if o["kind"] == "raise":
                     raise_kinds[o["exc"]] = raise_kinds.get(o["exc"], 0) + 1
-                if op["op"] == "interrupt":
-                    continue  # nothing is promised about the killed call itself, only about the calls after it
+                if op["op"] in ampworld.FAULT_OPS or o.get("faulted"):
+                    continue  # nothing is promised about the killed / faulted call itself, only about the calls after it
                 d = ampworld.compare_obs(refs[(ampworld.op_key(op), h["hashseed"])], o)
                 if d is not None:
                     sig = {"check": "history_independence", "kind": ampworld.op_kind(op).rsplit(":", 1)[0]}
@@ -221,6 +221,7 @@ def main(tier: str, seed: int, opts) -> int:
         "consistent_exceptions_seen": raise_kinds,
         "fault_kinds_fired": {"clock_jump_between_calls": clock_jumps, "interpreter_hash_seed_varied": len(hashseeds),
                               "call_killed_part_way": outcome_kinds.get("interrupted", 0), "kill_point_beyond_end_of_call": outcome_kinds.get("interrupt_not_reached", 0),
+                              "special_table_load_met_io_error": sum(1 for i_ in range(len(histories)) for o in hist_obs[(i_, 0)] if o.get("faulted")),
                               "file_rewritten_between_calls": sum(1 for h in histories for o in h["ops"] if (o.get("inner") or o).get("content"))},
         "simulated_time": {"clock_reads": clock_reads, "clock_jumps": clock_jumps},
         "regression_replays_run": n_reg,
